@@ -401,8 +401,14 @@ func checkC16(c *Ctx) {
 	var sgroups [][]*proto.Case
 	for i, s := range scs {
 		body := "---@class CA\n---@field fa number\n\n---@class CB\n---@field fb number\n\n--" + s.text + "\nlocal subj = nil\n---@type CA\nlocal nb = {}\nlocal unusedloc = 1\nprint(subj, nb.fa)\n"
+		defLine, defCol := 11, 15
+		if s.corrupt {
+			// a malformed line sits inside a comment block: the annotation lines after it in the same block still count
+			body = "---@class CA\n---@field fa number\n\n---@class CB\n---@field fb number\n\n--" + s.text + "\n---@class CZ\n---@field zf number\n---@type CZ\nlocal nb = {}\nlocal unusedloc = 1\nprint(nb.zf)\n"
+			defLine, defCol = 12, 9
+		}
 		pc := &proto.Case{ID: i + 1, Files: map[string]string{"f.lua": body}, Init: json.RawMessage(allOnLocal)}
-		pc.Steps = append(pc.Steps, openStep("f.lua", body), proto.Step{M: "textDocument/definition", P: posParams("f.lua", 11, 15)})
+		pc.Steps = append(pc.Steps, openStep("f.lua", body), proto.Step{M: "textDocument/definition", P: posParams("f.lua", defLine, defCol)})
 		sgroups = append(sgroups, []*proto.Case{pc})
 	}
 	p2 := c.NewPool(0)
@@ -430,6 +436,11 @@ func checkC16(c *Ctx) {
 		sort.Strings(other)
 		locs, _ := projLocs(res.Root, res.Steps[1].Reply)
 		neighbourOK := len(locs) == 1 && locs[0].SL == 1 // nb.fa -> the ---@field fa line
+		unusedAt := "4@10"
+		if s.corrupt {
+			neighbourOK = len(locs) == 1 && locs[0].SL == 8 // nb.zf -> the ---@field zf line of the same comment block
+			unusedAt = "4@11"
+		}
 		var prob []string
 		if s.stray {
 			for _, l := range t18 {
@@ -442,7 +453,7 @@ func checkC16(c *Ctx) {
 		}
 		if s.corrupt {
 			if len(t18) == 0 {
-				if strings.HasSuffix(s.text, "[") && neighbourOK && strings.Join(other, " ") == "4@10" {
+				if strings.HasSuffix(s.text, "[") && neighbourOK && strings.Join(other, " ") == unusedAt {
 					// as-built: an unclosed trailing '[' after a type is ignored silently
 					report(s.li, s.text, "embedded in a file: a malformed line (unclosed '[') yields no annotation warning", "Dev_TrailingBracketIgnored")
 					return
@@ -456,10 +467,10 @@ func checkC16(c *Ctx) {
 			}
 		}
 		if !neighbourOK {
-			prob = append(prob, fmt.Sprintf("the neighbouring annotation no longer takes effect (definition of nb.fa -> %v)", locs))
+			prob = append(prob, fmt.Sprintf("the neighbouring annotation no longer takes effect (definition of the neighbour member -> %v)", locs))
 		}
-		if strings.Join(other, " ") != "4@10" {
-			prob = append(prob, fmt.Sprintf("the Lua diagnostics of the file changed: %v (expected only the unused local on line 10)", other))
+		if strings.Join(other, " ") != unusedAt {
+			prob = append(prob, fmt.Sprintf("the Lua diagnostics of the file changed: %v (expected only the unused local, %s)", other, unusedAt))
 		}
 		if len(prob) > 0 {
 			report(s.li, s.text, "embedded in a file: "+strings.Join(prob, "; "), "")
